@@ -42,6 +42,11 @@ ALLOWED = PARAMS.get("kinds", list(range(10)))  # "long-header" (a header of mor
 OLD_C = "SPDX-FileCopyrightText: 2019 Old Holder"
 OLD_L = "0BSD"
 NEW_C = "SPDX-FileCopyrightText: 2020 Jane Doe"
+if PARAMS.get("request") == "two-years":
+    # the line `annotate --year 2016 --year 2019` requests, built by the real get_year / make_copyright_line
+    import reuse.cli.annotate as _ca
+
+    NEW_C = cr.make_copyright_line("Jane Doe", _ca.get_year(["2016", "2019"], False), "spdx")
 NEW_L = "GPL-3.0-or-later"
 NEW_F = "Alice Example"
 
@@ -173,7 +178,7 @@ def new_info():
         return ReuseInfo(contributor_lines={NEW_F})
     if REQUEST == "licence-only":
         return ReuseInfo(spdx_expressions={ex._LICENSING.parse(NEW_L)})
-    if REQUEST == "copyright-only":
+    if REQUEST in ("copyright-only", "two-years"):
         return ReuseInfo(copyright_lines={NEW_C})
     return ReuseInfo(spdx_expressions={ex._LICENSING.parse(NEW_L)}, copyright_lines={NEW_C}, contributor_lines={NEW_F})
 
@@ -253,7 +258,7 @@ def acc_story(k0, k1, k2, k3, final_nl):
     after = read(out)
     if after is None:
         return "the annotated file cannot be read any more", items, text, out, before, after
-    want_c = set(before[0]) | ({NEW_C} if REQUEST in ("full", "copyright-only") else set())
+    want_c = set(before[0]) | ({NEW_C} if REQUEST in ("full", "copyright-only", "two-years") else set())
     want_l = set(before[1]) | ({NEW_L} if REQUEST in ("full", "licence-only") else set())
     want_f = set(before[2]) | ({NEW_F} if REQUEST in ("full", "contributor-only") else set())
     if MERGE:
@@ -367,7 +372,7 @@ def keep_story(k0, k1, k2, k3, final_nl):
     def block_problem(inserted):
         """None if `inserted` is exactly one header block of the file's style holding the new information."""
         info = read("\n".join(inserted))
-        marker_ok = info is not None and ((NEW_C in info[0]) if REQUEST in ("full", "copyright-only") else (NEW_L in info[1]) if REQUEST == "licence-only" else (NEW_F in info[2]))
+        marker_ok = info is not None and ((NEW_C in info[0]) if REQUEST in ("full", "copyright-only", "two-years") else (NEW_L in info[1]) if REQUEST == "licence-only" else (NEW_F in info[2]))
         if not marker_ok:
             return "the inserted block is not the new header", {"inserted": inserted[:6]}
         if STYLE is not cm.EmptyCommentStyle:
@@ -564,3 +569,85 @@ def explain_file(*a):
 
 
 EXPLAIN["_file"] = explain_file
+
+
+# ------------------------------------------------------------------ C10: a re-run happens in another process
+# The requested lines are sets; their iteration order differs from one interpreter process to the next (string
+# hashing is seeded per process).  Whatever order a set is iterated in, the header must come out the same -
+# otherwise the second run, in a new process, rewrites the file.  The iteration order is a symbolic choice here.
+class OrderedLines(list):
+    """Stands for a set of lines iterated in the order given."""
+
+    __hash__ = None
+
+    def __eq__(self, other):
+        a, b = list(self), list(other)
+        return len(a) == len(b) and all(x in b for x in a)
+
+    def __ne__(self, other):
+        return not self.__eq__(other)
+
+    def union(self, *others):
+        out = OrderedLines(self)
+        for o in others:
+            for x in o:
+                if x not in out:
+                    out.append(x)
+        return out
+
+    __or__ = union
+
+    def copy(self):
+        return OrderedLines(self)
+
+
+HOLDER_POOL = ["Acme Corp", "ACME Corp", "acme corp", "Beta Ltd", "Straße GmbH", "STRASSE GmbH", "strasse gmbh", "Ärzte e.V.", "ärzte e.V."]
+
+
+def _pickn(i, n):
+    for v in range(n):
+        if i == v:
+            return v
+    return 0
+
+
+def order_story(i, j, which):
+    a = HOLDER_POOL[_pickn(i, len(HOLDER_POOL))]
+    b = HOLDER_POOL[_pickn(j, len(HOLDER_POOL))]
+    la, lb = ("SPDX-FileCopyrightText: 2020 " + a, "SPDX-FileCopyrightText: 2020 " + b) if not which else (a, b)
+    outs = []
+    for lines in ([la, lb], [lb, la]):
+        if which:
+            info = ReuseInfo(spdx_expressions={ex._LICENSING.parse(NEW_L)}, copyright_lines={NEW_C}, contributor_lines=OrderedLines(lines))
+        else:
+            info = ReuseInfo(spdx_expressions={ex._LICENSING.parse(NEW_L)}, copyright_lines=OrderedLines(lines), contributor_lines={NEW_F})
+        try:
+            outs.append(hd.add_new_header("x = 1\n", info, style=STYLE, force_multi=MULTI))
+        except (CommentCreateError, MissingReuseInfoError):
+            outs.append(None)
+    why = None if outs[0] == outs[1] else "the header depends on the iteration order of the requested set: a second run in a new process (other string hash seed) rewrites the file"
+    return why, [la, lb], outs
+
+
+def _order(i: int, j: int, which: bool) -> bool:
+    """
+    pre: 0 <= i < len(HOLDER_POOL) and 0 <= j < len(HOLDER_POOL) and i != j
+    post: _
+    """
+    return order_story(i, j, which)[0] is None
+
+
+def _order_reach(i: int, j: int, which: bool) -> bool:
+    """
+    pre: 0 <= i < len(HOLDER_POOL) and 0 <= j < len(HOLDER_POOL) and i != j
+    post: False
+    """
+    return order_story(i, j, which)[0] is None
+
+
+def explain_order(*a):
+    why, lines, outs = order_story(*a)
+    return {"style": STYLE.__name__, "multi": MULTI, "lines": lines, "kind": "contributors" if a[2] else "copyright", "header_in_one_order": outs[0], "header_in_the_other_order": outs[1], "why": why}
+
+
+EXPLAIN["_order"] = explain_order
